@@ -53,31 +53,31 @@ fn main() {
             run.extra.insert("program_seed".into(), serde_json::json!(generated::SEED));
             run.extra.insert("programs".into(), serde_json::json!(1));
             run.extra.insert("types_in_program".into(), serde_json::json!(n));
-            vec![spec("types", 60_000, 600_000, 200, c09_case)]
+            vec![spec("types", 200_000, 1_000_000, 200, c09_case)]
         }
         "C26" => {
             program_facts(&mut run);
             run.rule = "a generated crate of interfaces per program (methods with random argument / return types over std and derived types, sync / async, &self / &mut self, infallible / fdo::Result / custom error, header / emitter / connection / server parameters, renames, out-arg names); per case 1-3 interfaces registered on a tree of 5 paths and a burst of 1-5 raw calls from a reference-built peer, each valid or wrong in exactly one aspect (path incl. existing nodes without the interface, interface incl. one registered elsewhere, member incl. other interfaces' / property / signal names, arguments missing / extra / of another type), with and without the no-reply flag, either endianness, one chunk or several, under a generated executor schedule; oracle: handlers ran exactly for the valid calls with the arguments sent (handler log), exactly one reply per call (none with the no-reply flag), reply body == the value predicted from the handler's label with the declared signature, handler errors by name and text, emitted signals as declared, otherwise the named standard error; non-trivial = a burst with at least one call wrong in exactly one aspect; distinct by hash(kinds, labels)".into();
-            let mut s = spec("dispatch", 6_000, 300_000, 160, c26::c26_case);
+            let mut s = spec("dispatch", 60_000, 600_000, 160, c26::c26_case);
             s.threads = 0;
             vec![s]
         }
         "C27" => {
             program_facts(&mut run);
             run.rule = "a generated crate of interfaces per program (methods / signals / properties with random types, names, out-arg names, emits-changed modes and doc comments containing XML-special text: < > & -- --> ]]> quotes); per case 1-4 interfaces (and optionally an ObjectManager) registered on a tree of 5 paths and one node of the tree introspected by a reference-built peer; oracle: the XML is well-formed per the harness's own strict XML parser, zbus_xml reads it, every node (recursively) lists exactly the interfaces registered there plus the standard ones (each verified to be served by calling it) and exactly its child nodes, every method / signal / property is declared with the names, directions, types, access and annotation of the generator's table, and on the wire: Get returns a variant of the declared type, calls with arguments of the declared input types are not refused, replies carry the declared output types (single-structure returns excepted), emitted signals carry the declared types; non-trivial = the introspected object has an interface with signals and properties and the tree has more than 2 nodes or a doc comment has XML-special text; distinct by hash(setup)".into();
-            vec![spec("introspection", 3_000, 150_000, 120, c27::c27_case)]
+            vec![spec("introspection", 20_000, 200_000, 120, c27::c27_case)]
         }
         "C28" => {
             program_facts(&mut run);
             run.rule = "a generated crate of interfaces per program (properties with random types over std and Value-derived types, read-write / read-only / write-only, emits-changed true / invalidates / false / const, setters that refuse part of the values, fallible getters); per case one or two interfaces on one object and a history of 3-10 operations sent by a reference-built peer: Get / GetAll / Set, each valid or with an unknown property, unknown interface, read-only or write-only property, wrongly typed value; a model of the current values predicts every reply, the handler log and the PropertiesChanged signals of every step (exactly one carrying the new value or naming the property as invalidated after a successful Set of an emitting property, none otherwise); a final GetAll compares the whole state; non-trivial = a history with a successful Set, a later read of that property and at least one rejected Set; distinct by hash(interfaces, history)".into();
-            vec![spec("properties", 6_000, 300_000, 200, c28::c28_case)]
+            vec![spec("properties", 40_000, 400_000, 200, c28::c28_case)]
         }
         "C33" => {
             program_facts(&mut run);
             run.rule = "a generated crate of interface + separately written proxy trait pairs per program (methods, properties and signals with random types over std and derived types, renames, fallible handlers with fdo and custom errors); per case a client and a server connection joined by two scripted sockets that the harness pumps under a generated schedule (async proxies), or by a socket pair with the library's executor threads (blocking proxies, 30 s give-up = inconclusive); 1-6 typed proxy operations with generated arguments: method calls (handler log must show exactly the arguments sent; the result or error must be the one predicted from the handler's label; a signal the handler emits must arrive on the proxy's signal stream with equal arguments), property reads (== the server's value per the model) and writes (the setter ran with the value; refused values error out and change nothing); non-trivial = a case with at least 2 completed operations; distinct by hash(interfaces, operations, outcomes)".into();
-            let mut b = spec("blocking", 200, 6_000, 120, c33::c33_blocking_case);
+            let mut b = spec("blocking", 400, 6_000, 120, c33::c33_blocking_case);
             b.threads = 4;
-            vec![spec("async", 3_000, 150_000, 400, c33::c33_async_case), b]
+            vec![spec("async", 20_000, 200_000, 400, c33::c33_async_case), b]
         }
         _ => {
             eprintln!("unknown property {id} for h_prog");
